@@ -472,3 +472,27 @@ PROPS["C28"] = dict(
            + [Stage("c28", pkg="mon_stark", variant="par", threads=t, tiers=("thorough",), timeout=(900, 7200)) for t in (1, 2, 3, 5, 8, 16)]
            + [Stage("c28", pkg="mon_stark", kind="tsan", threads=6, args=["--n", "30", "--maxlog", "10"], timeout=(900, 1800))],
 )
+
+C06_THREADS_QUICK = (1, 3, 16)
+C06_THREADS_ALL = (1, 2, 3, 4, 5, 7, 8, 16)
+PROPS["C06"] = dict(
+    level="exploration",
+    rule="a fixed seed-determined list of 44 (thorough 300) GenAir instances with trace lengths 2^6..2^12 (2^14), blowup up to 16 "
+         "(LDE domains on both sides of the 1024-point FFT, 1024-leaf Merkle, 1024-row transposition and evaluation-fragment "
+         "thresholds), grinding 0 / 5 / 9, partitions, auxiliary segments, 11 field/hasher pairs; the serial build, the async "
+         "build and the concurrent build at 3 (8) thread counts each prove every instance and log digest(context || "
+         "commitments || OOD frame) and digest(whole proof) keyed by the proof-of-work nonce; the offline checker requires "
+         "equal prefix digests across ALL runs and equal whole-proof digests within each nonce class; every proof is verified; "
+         "TSan on the concurrent build; trace-table fragments vs fill is checked under C29's concurrent stage; "
+         "distinct = instances",
+    assumptions=["nothing is demanded about WHICH nonce a build finds (the concurrent search may return any valid one)",
+                 "the async prover's futures never pend (no I/O); they are driven by a no-op-waker executor",
+                 "thread counts are set with RAYON_NUM_THREADS on a 16-core host"],
+    floor=20,
+    post=compare_digests,
+    stages=[Stage("c06", pkg="mon_stark", variant="rel", timeout=(900, 7200)),
+            Stage("c06", pkg="mon_stark", variant="async", timeout=(900, 7200))]
+           + [Stage("c06", pkg="mon_stark", variant="par", threads=t, timeout=(900, 7200),
+                    tiers=("quick", "thorough") if t in C06_THREADS_QUICK else ("thorough",)) for t in C06_THREADS_ALL]
+           + [Stage("c06", pkg="mon_stark", kind="tsan", threads=5, args=["--n", "10", "--maxlogn", "11"], timeout=(1200, 3600))],
+)
